@@ -87,6 +87,12 @@ def build(case):
         # very long recordings: sample indices beyond 2**32 (> 39.8 h at 30 kHz)
         opts.update(n_samples=int(2 ** 32 + rng.integers(1, 10 ** 9)), raw='none', rate=30000.,
                     dtype_times=['uint64', 'int64', 'float64'][int(rng.integers(0, 3))])
+    if rng.random() < 0.1:
+        opts.update(pos_offset=float(2 ** 24), dtype_pos='float64')      # coordinates that float32 cannot tell apart
+    if case.get('batch'):
+        # spike counts that are exact multiples of the 50000-spike batches, with features (depths come from them)
+        opts.update(ns=[100000, 50000][case['seed'][1] % 2], n_samples=400000, raw='none', features=['sparse', 'dense'][case['seed'][1] % 2],
+                    far_ids=0, nc=6, nt=5, rate=30000., clusters='same', probes=False)
     if case.get('large'):
         # size-dependent code paths: > 1 MiB id files (> 262144 int32 spikes)
         opts.update(ns=300000, n_samples=400000, raw='none', features='none', far_ids=0, nc=6, nt=5, rate=30000.)
